@@ -1071,7 +1071,7 @@ pub fn run(a: &Args) {
  "5 capacity thresholds": "CLOSED: more pooled acquisitions than the pool holds, during and after a stall; pool of capacity 1",
  "6 fault kinds": "CLOSED: request futures dropped while queued (the only await point of the pooled / oneshot paths is the response wait; send is synchronous); OPEN: shard actor panic / channel closure ('ERR shard unavailable') not injected",
  "7 history shapes": "CLOSED: overlapping ops on one key, sequential corpora per path pair, batched calls, generic fan-outs racing single-key ops, abandoned (pending) operations, timed phases; OPEN: clock advancing WHILE operations are in flight (phases advance it only when all clients are idle)",
- "8 node-global state": "CLOSED: script introduced by EVAL on one shard, EVALSHA elsewhere",
+ "8 node-global state": "CLOSED: script introduced by EVAL on one shard, EVALSHA elsewhere; multi-call scripts (session 3): XINCR = GET/+1/SET script judged as an increment in the counter histories, two-key transfer/sum scripts racing plain commands (oracle C02:script-not-atomic:transfer); model: Redis.Prog / linearizable_m7_single_store",
  "9 observations": "CLOSED: every reply (verified WGL + Rust checker), direct reply-matches-request oracle in cancellation histories; fan-outs: every ITEM of MGET/MSET is a single-key op inside the call's interval, every key of multi-key DEL / FLUSHALL is a delete without observable reply (pending op); OPEN: DBSIZE / KEYS / SCAN / RANDOMKEY replies under concurrency are NOT judged (no atomic-snapshot claim is made for fan-outs: C02 is per key)",
  "10 finding absorption": "no listed finding for C02",
  "11 harness fragility": "CLOSED: verified checker made just-in-time (no exponential blow-up on non-linearizable histories); OPEN: schedules are sampled"
